@@ -1,4 +1,4 @@
-(** * C04 — Relation targets stay consistent; removing a target detaches, never corrupts.  (partial only for histories with observers / batch operations / operations after Reset: see the end of this comment; histories with filters, registrations and queries are covered by Rel2HistQ, see the end of the file)
+(** * C04 — Relation targets stay consistent; removing a target detaches, never corrupts.  (over histories the invariant is proved for four classes - core+queries+filters (Rel2HistQ), +observers (Rel2HistO), +Reset (Rel2HistR), core+batch operations (Rel2BatchHist) - not for one class containing everything at once: partial in that sense only; see the end of the file)
 
     Proved here are the MECHANISM lemmas that keep relation targets valid, in general worlds:
     - table creation validates every relation before changing anything: a target that is neither
@@ -63,6 +63,7 @@
 From Ark Require Import Model.Base Model.Mask Model.Pool Model.Util Model.World Model.Run.
 From Ark Require Import Proofs.WF Proofs.StorageA Proofs.StorageBDefs Proofs.RelProofs Proofs.Rel2Defs Proofs.Rel2Struct Proofs.Rel2Remove Proofs.Rel2SetRel Proofs.Rel2Maint Proofs.StorageC Proofs.Rel2Hist Properties.Common.
 From Ark Require Import Proofs.Rel2HistQ.
+From Ark Require Import Proofs.Rel2Defs Proofs.Rel2Maint Proofs.Rel2Hist Proofs.Rel2HistQ Proofs.ObsErase Proofs.Rel2HistO Proofs.Rel2HistR Proofs.Rel2BatchHist.
 
 Theorem C04_create_table_rejects_invalid : forall s aid a rels,
   nth_error (w_archs s) aid = Some a ->
@@ -273,7 +274,96 @@ Theorem C04_remove_target_rejected_when_locked : forall c lines h,
   exists er, step_op (sc_debug c) (ORemoveEntity h) (Properties.Common.exec c lines) = Err er (Properties.Common.exec c lines).
 Proof. exact remove_target_locked_rejected_Q. Qed.
 
-Definition C04_all := (C04_invariant_after_every_history_with_queries, C04_targets_always_zero_or_alive_with_queries, C04_remove_target_detaches_with_queries, C04_remove_target_rejected_when_locked, C04_invariant_after_every_history, C04_step_preserves_invariant, C04_targets_always_zero_or_alive,
+(** ** Three more classes of histories (Rel2HistO, Rel2HistR, Rel2BatchHist): WITH OBSERVERS of any callback kind
+    (register / unregister / emit with arbitrary arguments; callbacks that unregister themselves or others; a
+    callback failing in the middle of an operation), WITH Reset inside the history (handles issued before a
+    Reset are foreign; the side condition [r2r_foreign_ok] on foreign handles used as relation target or copy
+    source is shown necessary by [r2r_foreign_target_refuted] / [r2r_foreign_copy_refuted]), and WITH the batch
+    operations. In each class: the relation invariant after every history, targets zero or alive, removing a
+    live target detaches exactly its dependants. *)
+Theorem C04_invariant_after_every_history_with_observers :
+  forall (c : script_cfg) (lines : list (list Z)),
+         cfg_ok2 c ->
+         Forall (rel_o_line (sc_kinds c)) lines ->
+         length lines + 4 < 2 ^ 31 -> Inv2O (exec c lines) (length lines).
+Proof. exact reachable_inv2O. Qed.
+
+Theorem C04_targets_always_zero_or_alive_with_observers :
+  forall (c : script_cfg) (lines : list (list Z)) (e : ent) (cmp : nat) (x : ent),
+         cfg_ok2 c ->
+         Forall (rel_o_line (sc_kinds c)) lines ->
+         length lines + 4 < 2 ^ 31 ->
+         tgt (exec c lines) e cmp = Some x -> x = zero_ent \/ live (exec c lines) x = true.
+Proof. exact targets_always_zero_or_alive_O. Qed.
+
+Theorem C04_remove_target_detaches_with_observers :
+  forall (c : script_cfg) (lines : list (list Z)) (h : Z) (x : ent),
+         cfg_ok2 c ->
+         Forall (rel_o_line (sc_kinds c)) lines ->
+         length lines + 4 < 2 ^ 31 ->
+         let s := exec c lines in
+         is_locked s = false ->
+         handle s h = Some x ->
+         live s x = true ->
+         match step_op (sc_debug c) (ORemoveEntity h) s with
+         | Ok res s' =>
+             res = [] /\
+             St2 s' /\
+             r2d_KeysLive s' /\
+             live s' x = false /\
+             alive s' x = false /\
+             (forall e : ent,
+              e <> x ->
+              live s' e = live s e /\
+              (forall cmp : nat, val s' e cmp = val s e cmp) /\
+              (forall cmp : nat, tgt s' e cmp = r2c_detached x (tgt s e cmp)))
+         | Err _ s' => oe_E s' = oe_E s
+         end.
+Proof. exact remove_target_detaches_O. Qed.
+
+Theorem C04_invariant_after_every_history_with_resets :
+  forall (c : script_cfg) (lines : list (list Z)),
+         cfg_ok2 c ->
+         rel_r_hist (sc_debug c) (sc_kinds c) (init_world c, 0) lines ->
+         length lines + 4 < 2 ^ 31 -> Inv2R (exec c lines) (length lines) (r2r_epoch_of c lines).
+Proof. exact reachable_inv2R. Qed.
+
+Theorem C04_targets_always_zero_or_alive_with_resets :
+  forall (c : script_cfg) (lines : list (list Z)) (e : ent) (cmp : nat) (x : ent),
+         cfg_ok2 c ->
+         rel_r_hist (sc_debug c) (sc_kinds c) (init_world c, 0) lines ->
+         length lines + 4 < 2 ^ 31 ->
+         tgt (exec c lines) e cmp = Some x -> x = zero_ent \/ live (exec c lines) x = true.
+Proof. exact targets_always_zero_or_alive_R. Qed.
+
+Theorem C04_remove_target_detaches_with_resets :
+  forall (c : script_cfg) (lines : list (list Z)) (h : Z) (x : ent),
+         cfg_ok2 c ->
+         rel_r_hist (sc_debug c) (sc_kinds c) (init_world c, 0) lines ->
+         length lines + 4 < 2 ^ 31 ->
+         let s := exec c lines in
+         is_locked s = false ->
+         handle s h = Some x ->
+         live s x = true ->
+         exists s' : W,
+           step_op (sc_debug c) (ORemoveEntity h) s = Ok [] s' /\
+           St2 s' /\
+           live s' x = false /\
+           (forall e : ent,
+            e <> x ->
+            live s' e = live s e /\
+            (forall cmp : nat, val s' e cmp = val s e cmp) /\
+            (forall cmp : nat, tgt s' e cmp = r2c_detached x (tgt s e cmp))).
+Proof. exact remove_target_detaches_R. Qed.
+
+Theorem C04_invariant_after_every_history_with_batches :
+  forall (c : script_cfg) (lines : list (list Z)),
+         cfg_ok2 c ->
+         Forall (r2h_line (length (sc_kinds c))) lines ->
+         r2h_total lines + 4 < 2 ^ 31 -> Inv2 (exec c lines) (r2h_total lines).
+Proof. exact reachable_inv2B. Qed.
+
+Definition C04_all := (C04_invariant_after_every_history_with_observers, C04_targets_always_zero_or_alive_with_observers, C04_remove_target_detaches_with_observers, C04_invariant_after_every_history_with_resets, C04_targets_always_zero_or_alive_with_resets, C04_remove_target_detaches_with_resets, C04_invariant_after_every_history_with_batches, C04_invariant_after_every_history_with_queries, C04_targets_always_zero_or_alive_with_queries, C04_remove_target_detaches_with_queries, C04_remove_target_rejected_when_locked, C04_invariant_after_every_history, C04_step_preserves_invariant, C04_targets_always_zero_or_alive,
   C04_remove_target_detaches_history, C04_target_is_last_assigned, C04_stale_handle_rejected, C04_reset_succeeds, C04_history_examples,
   C04_targets_zero_or_alive, C04_remove_entity, C04_remove_fails_only_for_dead, C04_remove_target_detaches,
   C04_set_relations, C04_get_or_create_table, C04_create_table, C04_checker_sound, C04_relation_examples,
